@@ -62,10 +62,28 @@ func ParallelNM(n, m int, loop bool) *prog.Program {
 // then ends in its own end event, for "or" the branches are joined by an
 // inclusive join unless endBranch >= 0 names a branch that ends before it.
 func GatewayTable(kind string, k, dpos, tokens, endBranch int) *prog.Program {
-	b := prog.NewBuilder(fmt.Sprintf("%s_k%d_d%d_t%d_e%d", kind, k, dpos, tokens, endBranch))
+	return GatewayTableLoop(kind, k, dpos, tokens, endBranch, false)
+}
+
+// MergedArrival makes GatewayTable* route the concurrent tokens through one
+// merging exclusive gateway so that they arrive over a single incoming flow.
+var MergedArrival bool
+
+// GatewayTableLoop is GatewayTable with the whole block placed in a loop
+// (loop = true) so that the gateways are re-entered: after the block a
+// decision task writes `again`.
+func GatewayTableLoop(kind string, k, dpos, tokens, endBranch int, loop bool) *prog.Program {
+	b := prog.NewBuilder(fmt.Sprintf("%s_k%d_d%d_t%d_e%d_loop%v_m%v", kind, k, dpos, tokens, endBranch, loop, MergedArrival))
 	s := b.AddNode("start", "")
 	dt := b.AddNode("task", "")
-	b.Connect(s, dt, prog.Cond{})
+	var merge string
+	if loop {
+		merge = b.AddNode("xor", "")
+		b.Connect(s, merge, prog.Cond{})
+		b.Connect(merge, dt, prog.Cond{})
+	} else {
+		b.Connect(s, dt, prog.Cond{})
+	}
 	for i := 0; i < k; i++ {
 		v := fmt.Sprintf("c%d", i)
 		b.N(dt).Writes = append(b.N(dt).Writes, v)
@@ -76,11 +94,18 @@ func GatewayTable(kind string, k, dpos, tokens, endBranch int) *prog.Program {
 	if tokens > 1 {
 		fork := b.AddNode("and", "")
 		b.Connect(dt, fork, prog.Cond{})
+		into := gw
+		if MergedArrival {
+			// all tokens reach the gateway over ONE incoming flow
+			into = b.AddNode("xor", "")
+			b.Connect(into, gw, prog.Cond{})
+			b.P.Tags = append(b.P.Tags, "merged-arrival")
+		}
 		for i := 0; i < tokens; i++ {
 			// a pass-through task per token so that arrival order is driven by the environment
 			u := b.AddNode("task", "")
 			b.Connect(fork, u, prog.Cond{})
-			b.Connect(u, gw, prog.Cond{})
+			b.Connect(u, into, prog.Cond{})
 		}
 	} else {
 		b.Connect(dt, gw, prog.Cond{})
@@ -92,6 +117,8 @@ func GatewayTable(kind string, k, dpos, tokens, endBranch int) *prog.Program {
 	var join string
 	if kind == "or" {
 		join = b.AddNode("or", "")
+	} else if loop {
+		join = b.AddNode("xor", "")
 	}
 	ci := 0
 	for pos := 0; pos < total; pos++ {
@@ -104,14 +131,14 @@ func GatewayTable(kind string, k, dpos, tokens, endBranch int) *prog.Program {
 			f = b.Connect(gw, t, prog.Cond{K: "eq", V: fmt.Sprintf("c%d", ci), C: 1})
 			ci++
 		}
-		if kind == "or" && pos != endBranch {
+		if join != "" && pos != endBranch {
 			b.Connect(t, join, prog.Cond{})
 		} else {
 			e := b.AddNode("end", "")
 			b.Connect(t, e, prog.Cond{})
 		}
 	}
-	if kind == "or" {
+	if join != "" {
 		if len(b.N(join).In) == 0 {
 			// unreachable join: give it an incoming flow that is never taken
 			t := b.AddNode("task", "")
@@ -121,7 +148,19 @@ func GatewayTable(kind string, k, dpos, tokens, endBranch int) *prog.Program {
 		after := b.AddNode("task", "")
 		b.Connect(join, after, prog.Cond{})
 		e := b.AddNode("end", "")
-		b.Connect(after, e, prog.Cond{})
+		if loop {
+			b.N(after).Writes = []string{"again"}
+			b.P.Dom["again"] = []int{0, 1}
+			b.P.Vars0["again"] = 0
+			x := b.AddNode("xor", "")
+			b.Connect(after, x, prog.Cond{})
+			b.Connect(x, merge, prog.Cond{K: "eq", V: "again", C: 1})
+			df := b.Connect(x, e, prog.Cond{})
+			b.N(x).Default = df
+			b.P.Tags = append(b.P.Tags, "loop", kind+"-in-loop")
+		} else {
+			b.Connect(after, e, prog.Cond{})
+		}
 	}
 	b.P.Tags = append(b.P.Tags, kind, fmt.Sprintf("k%d", k), fmt.Sprintf("tokens%d", tokens))
 	if dpos < 0 {
